@@ -1,1 +1,704 @@
-//! reference model `range` — not built yet.
+//! Reference model `range` (C16): an independent reading of
+//!
+//! * RFC 7233 §2.1 / §3.1 / §4 (RFC 9110 §14): what a `Range` header means for a representation of
+//!   a given length — written from the RFC text, sharing nothing with `http-range` or actix-files;
+//! * RFC 7232 §3 / §6 (RFC 9110 §13): which of 412 / 304 / "the normal answer" a GET carrying
+//!   `If-Match`, `If-None-Match`, `If-Unmodified-Since`, `If-Modified-Since`, `If-Range` may get.
+//!
+//! Both return *outcome sets*: where the RFCs leave latitude (invalid syntax may be ignored or
+//! rejected, several ranges may be answered by one of them, …) every permitted answer is in the set
+//! and the monitor counts which one it saw.
+
+// ------------------------------------------------------------------------------------------------
+// Range
+// ------------------------------------------------------------------------------------------------
+
+/// A decimal number of arbitrary length (RFC: `1*DIGIT`, no upper bound).
+#[derive(Clone, Debug, PartialEq, Eq)]
+pub struct Num {
+    /// digits without leading zeros ("0" for zero)
+    pub digits: String,
+    /// value when it fits u64
+    pub val: Option<u64>,
+}
+
+impl Num {
+    fn parse(s: &str) -> Option<Num> {
+        if s.is_empty() || !s.bytes().all(|b| b.is_ascii_digit()) {
+            return None;
+        }
+        let t = s.trim_start_matches('0');
+        let digits = if t.is_empty() { "0".to_string() } else { t.to_string() };
+        let mut val: Option<u64> = Some(0);
+        for b in digits.bytes() {
+            val = val.and_then(|v| v.checked_mul(10)).and_then(|v| v.checked_add((b - b'0') as u64));
+        }
+        Some(Num { digits, val })
+    }
+    fn less_than(&self, o: &Num) -> bool {
+        (self.digits.len(), self.digits.as_str()) < (o.digits.len(), o.digits.as_str())
+    }
+    /// `min(self, cap)` as u64
+    fn min_u64(&self, cap: u64) -> u64 {
+        match self.val {
+            Some(v) => v.min(cap),
+            None => cap,
+        }
+    }
+    fn is_zero(&self) -> bool {
+        self.val == Some(0)
+    }
+    /// abstract size class relative to the representation length, for signatures
+    pub fn class(&self, len: u64) -> &'static str {
+        match self.val {
+            None => ">u64",
+            Some(0) => "0",
+            Some(v) if len > 0 && v == len - 1 => "L-1",
+            Some(v) if v == len => "L",
+            Some(v) if v < len => "<L",
+            Some(v) if v == u64::MAX => "u64max",
+            Some(v) if v >= 1 << 63 => ">=2^63",
+            Some(_) => ">L",
+        }
+    }
+}
+
+#[derive(Clone, Debug, PartialEq, Eq)]
+pub enum Spec {
+    /// `first-last`
+    FromTo(Num, Num),
+    /// `first-`
+    From(Num),
+    /// `-suffix`
+    Suffix(Num),
+}
+
+/// Why a header is not a usable byte-range-set.
+#[derive(Clone, Copy, Debug, PartialEq, Eq)]
+pub enum Ignored {
+    /// no `=` / unit is not a token
+    NoUnit,
+    /// a syntactically fine unit other than `bytes` — RFC: MUST be ignored
+    OtherUnit,
+    /// `bytes=` followed by nothing but commas and blanks
+    EmptyList,
+    /// some element is not a byte-range-spec / suffix-byte-range-spec
+    BadSpec,
+    /// `last-byte-pos < first-byte-pos` — the whole set is invalid
+    LastBeforeFirst,
+}
+
+#[derive(Clone, Debug, PartialEq, Eq)]
+pub enum Kind {
+    /// header absent
+    Absent,
+    /// header present but to be ignored (RFC 7233) or rejected (RFC 9110 permits either)
+    Ignored(Ignored),
+    /// valid set, no spec satisfiable
+    Unsat,
+    /// valid set, `sat` lists the resolved satisfiable specs in header order
+    Sat,
+    /// zero-length representation and a non-zero suffix length: satisfiable by the letter of the
+    /// RFC ("the entire representation is used") but not expressible as `Content-Range`
+    EmptyRep,
+}
+
+#[derive(Clone, Debug)]
+pub struct RangeVerdict {
+    pub kind: Kind,
+    /// inclusive (first, last) of every satisfiable spec, in header order
+    pub sat: Vec<(u64, u64)>,
+    /// number of specs in the set
+    pub nspecs: usize,
+    /// the interpretation needed leniency a strict parser would not grant: unit not spelled in
+    /// lower case, blanks where the grammar has none.  A server may equally treat it as invalid.
+    pub lenient: bool,
+    /// some number exceeds u64::MAX: valid per grammar, but an implementation limit may reject it
+    pub beyond_u64: bool,
+    /// abstract shape of the header relative to `len` (for coverage signatures)
+    pub shape: String,
+}
+
+impl RangeVerdict {
+    fn new(kind: Kind, shape: String) -> Self {
+        RangeVerdict { kind, sat: vec![], nspecs: 0, lenient: false, beyond_u64: false, shape }
+    }
+}
+
+fn is_tchar(b: u8) -> bool {
+    b.is_ascii_alphanumeric() || b"!#$%&'*+-.^_`|~".contains(&b)
+}
+
+fn is_ows(b: u8) -> bool {
+    b == b' ' || b == b'\t'
+}
+
+fn trim_ows(s: &str) -> &str {
+    s.trim_matches(|c| c == ' ' || c == '\t')
+}
+
+/// Parse one list element.  `Ok((spec, needed_leniency))`.
+fn parse_spec(el: &str) -> Result<(Spec, bool), ()> {
+    // strict: no blanks inside the element; lenient: blanks around either number
+    let dash = el.find('-').ok_or(())?;
+    let (a_raw, b_raw) = (&el[..dash], &el[dash + 1..]);
+    let (a, b) = (trim_ows(a_raw), trim_ows(b_raw));
+    let lenient = a.len() != a_raw.len() || b.len() != b_raw.len();
+    if a.is_empty() {
+        let n = Num::parse(b).ok_or(())?;
+        return Ok((Spec::Suffix(n), lenient));
+    }
+    let first = Num::parse(a).ok_or(())?;
+    if b.is_empty() {
+        return Ok((Spec::From(first), lenient));
+    }
+    let last = Num::parse(b).ok_or(())?;
+    Ok((Spec::FromTo(first, last), lenient))
+}
+
+/// Interpret `header` (None = absent) for a representation of `len` bytes.
+pub fn eval_range(header: Option<&str>, len: u64) -> RangeVerdict {
+    let h = match header {
+        None => return RangeVerdict::new(Kind::Absent, "absent".into()),
+        Some(h) => h,
+    };
+    let eq = match h.find('=') {
+        Some(i) => i,
+        None => return RangeVerdict::new(Kind::Ignored(Ignored::NoUnit), "no-unit".into()),
+    };
+    let unit = &h[..eq];
+    if unit.is_empty() || !unit.bytes().all(is_tchar) {
+        return RangeVerdict::new(Kind::Ignored(Ignored::NoUnit), "bad-unit".into());
+    }
+    if !unit.eq_ignore_ascii_case("bytes") {
+        return RangeVerdict::new(Kind::Ignored(Ignored::OtherUnit), "other-unit".into());
+    }
+    let mut lenient = unit != "bytes";
+    let rest = &h[eq + 1..];
+    // `1#element`: OWS is only allowed next to a comma; a blank right after `=` or at the very end
+    // without a comma is outside the grammar but universally trimmed.
+    if rest.bytes().next().map(is_ows).unwrap_or(false) || rest.bytes().last().map(is_ows).unwrap_or(false) {
+        lenient = true;
+    }
+    let mut specs: Vec<Spec> = vec![];
+    for el in rest.split(',') {
+        let el = trim_ows(el);
+        if el.is_empty() {
+            continue; // empty list elements are permitted (RFC 7230 §7)
+        }
+        match parse_spec(el) {
+            Ok((s, l)) => {
+                lenient |= l;
+                specs.push(s);
+            }
+            Err(()) => return RangeVerdict::new(Kind::Ignored(Ignored::BadSpec), "bad-spec".into()),
+        }
+    }
+    if specs.is_empty() {
+        return RangeVerdict::new(Kind::Ignored(Ignored::EmptyList), "empty-list".into());
+    }
+    let mut shape = String::new();
+    let mut beyond = false;
+    let mut sat = vec![];
+    let mut empty_rep_suffix = false;
+    for (i, s) in specs.iter().enumerate() {
+        if i > 0 {
+            shape.push(',');
+        }
+        if i >= 3 {
+            shape.push_str("…");
+            // still evaluated below, only the shape is abbreviated
+        }
+        match s {
+            Spec::FromTo(a, b) => {
+                if i < 3 {
+                    shape.push_str(&format!("{}-{}", a.class(len), b.class(len)));
+                }
+                beyond |= a.val.is_none() || b.val.is_none();
+                if b.less_than(a) {
+                    return RangeVerdict {
+                        kind: Kind::Ignored(Ignored::LastBeforeFirst),
+                        sat: vec![],
+                        nspecs: specs.len(),
+                        lenient,
+                        beyond_u64: beyond,
+                        shape: "last<first".into(),
+                    };
+                }
+                if let Some(f) = a.val {
+                    if f < len {
+                        sat.push((f, b.min_u64(len - 1)));
+                    }
+                }
+            }
+            Spec::From(a) => {
+                if i < 3 {
+                    shape.push_str(&format!("{}-", a.class(len)));
+                }
+                beyond |= a.val.is_none();
+                if let Some(f) = a.val {
+                    if f < len {
+                        sat.push((f, len - 1));
+                    }
+                }
+            }
+            Spec::Suffix(n) => {
+                if i < 3 {
+                    shape.push_str(&format!("-{}", n.class(len)));
+                }
+                beyond |= n.val.is_none();
+                if !n.is_zero() {
+                    if len == 0 {
+                        empty_rep_suffix = true;
+                    } else {
+                        let k = n.min_u64(len);
+                        sat.push((len - k, len - 1));
+                    }
+                }
+            }
+        }
+    }
+    let kind = if !sat.is_empty() {
+        Kind::Sat
+    } else if empty_rep_suffix {
+        Kind::EmptyRep
+    } else {
+        Kind::Unsat
+    };
+    if lenient {
+        shape.push_str(";lenient");
+    }
+    RangeVerdict { kind, sat, nspecs: specs.len(), lenient, beyond_u64: beyond, shape }
+}
+
+/// What the server answered, reduced to what the range clauses speak about.
+#[derive(Clone, Debug, PartialEq, Eq)]
+pub enum RangeAnswer {
+    /// 200 with the whole representation
+    Full,
+    /// 206 for inclusive (first, last)
+    Partial(u64, u64),
+    /// 416
+    NotSatisfiable,
+}
+
+/// Is `ans` inside the outcome set of `v`?  `Err(reason)` names the clause.
+pub fn range_allows(v: &RangeVerdict, ans: &RangeAnswer) -> Result<&'static str, &'static str> {
+    let slack = v.lenient || v.beyond_u64;
+    match (&v.kind, ans) {
+        (Kind::Absent, RangeAnswer::Full) => Ok("no-range:200"),
+        (Kind::Absent, _) => Err("no Range header but the answer is not a plain 200"),
+
+        (Kind::Ignored(_), RangeAnswer::Full) => Ok("invalid:ignored-200"),
+        (Kind::Ignored(_), RangeAnswer::NotSatisfiable) => Ok("invalid:rejected-416"),
+        // the property only demands that a 206 be exact; which invalid headers a server chooses
+        // to make sense of is its business (the monitor counts these — none are expected)
+        (Kind::Ignored(_), RangeAnswer::Partial(..)) => Ok("invalid:served-206"),
+
+        (Kind::Unsat, RangeAnswer::NotSatisfiable) => Ok("unsat:416"),
+        (Kind::Unsat, RangeAnswer::Full) if slack => Ok("unsat-lenient:200"),
+        (Kind::Unsat, RangeAnswer::Full) => Err("valid but unsatisfiable byte-range-set answered 200 instead of 416"),
+        (Kind::Unsat, RangeAnswer::Partial(..)) => Err("unsatisfiable byte-range-set answered 206"),
+
+        (Kind::EmptyRep, RangeAnswer::Full) => Ok("empty-rep:200"),
+        (Kind::EmptyRep, RangeAnswer::NotSatisfiable) => Ok("empty-rep:416"),
+        (Kind::EmptyRep, RangeAnswer::Partial(..)) => Err("206 for a zero-length representation: no Content-Range can describe it"),
+
+        (Kind::Sat, RangeAnswer::Partial(s, e)) => {
+            if v.sat.first() == Some(&(*s, *e)) {
+                Ok(if v.nspecs > 1 { "sat-multi:206-first" } else { "sat:206" })
+            } else if v.sat.contains(&(*s, *e)) {
+                Ok("sat-multi:206-other")
+            } else {
+                Err("206 for a range that is not one of the requested satisfiable ranges")
+            }
+        }
+        (Kind::Sat, RangeAnswer::Full) if v.nspecs > 1 => Ok("sat-multi:200"),
+        (Kind::Sat, RangeAnswer::Full) if slack => Ok("sat-lenient:200"),
+        (Kind::Sat, RangeAnswer::NotSatisfiable) if slack => Ok("sat-lenient:416"),
+        (Kind::Sat, RangeAnswer::Full) => Err("satisfiable single range answered with a full 200 by a server advertising Accept-Ranges"),
+        (Kind::Sat, RangeAnswer::NotSatisfiable) => Err("satisfiable byte-range-set answered 416"),
+    }
+}
+
+/// Strict parse of a `Content-Range` value: `bytes F-L/LEN` or `bytes */LEN`.
+#[derive(Clone, Debug, PartialEq, Eq)]
+pub enum ContentRange {
+    Range(u64, u64, u64),
+    Unsatisfied(u64),
+}
+
+pub fn parse_content_range(v: &str) -> Option<ContentRange> {
+    fn num(s: &str) -> Option<u64> {
+        if s.is_empty() || !s.bytes().all(|b| b.is_ascii_digit()) {
+            return None;
+        }
+        s.parse().ok()
+    }
+    let rest = v.strip_prefix("bytes ")?;
+    let (range, len) = rest.split_once('/')?;
+    let len = num(len)?;
+    if range == "*" {
+        return Some(ContentRange::Unsatisfied(len));
+    }
+    let (f, l) = range.split_once('-')?;
+    Some(ContentRange::Range(num(f)?, num(l)?, len))
+}
+
+// ------------------------------------------------------------------------------------------------
+// Conditional requests
+// ------------------------------------------------------------------------------------------------
+
+#[derive(Clone, Debug, PartialEq, Eq)]
+pub struct ETag {
+    pub weak: bool,
+    pub opaque: String,
+}
+
+impl ETag {
+    pub fn parse(s: &str) -> Option<ETag> {
+        let (weak, q) = match s.strip_prefix("W/") {
+            Some(r) => (true, r),
+            None => (false, s),
+        };
+        if q.len() < 2 || !q.starts_with('"') || !q.ends_with('"') {
+            return None;
+        }
+        let inner = &q[1..q.len() - 1];
+        if !inner.bytes().all(|b| b == 0x21 || (0x23..=0x7e).contains(&b) || b >= 0x80) {
+            return None;
+        }
+        Some(ETag { weak, opaque: inner.to_string() })
+    }
+    fn strong_eq(&self, o: &ETag) -> bool {
+        !self.weak && !o.weak && self.opaque == o.opaque
+    }
+    fn weak_eq(&self, o: &ETag) -> bool {
+        self.opaque == o.opaque
+    }
+}
+
+#[derive(Clone, Debug, PartialEq, Eq)]
+enum TagList {
+    Any,
+    List(Vec<ETag>),
+    Garbage,
+}
+
+fn parse_tag_list(v: &str) -> TagList {
+    let t = trim_ows(v);
+    if t == "*" {
+        return TagList::Any;
+    }
+    let mut out = vec![];
+    for el in t.split(',') {
+        let el = trim_ows(el);
+        if el.is_empty() {
+            continue;
+        }
+        match ETag::parse(el) {
+            Some(e) => out.push(e),
+            None => return TagList::Garbage,
+        }
+    }
+    if out.is_empty() {
+        TagList::Garbage
+    } else {
+        TagList::List(out)
+    }
+}
+
+const MONTHS: [&str; 12] = ["Jan", "Feb", "Mar", "Apr", "May", "Jun", "Jul", "Aug", "Sep", "Oct", "Nov", "Dec"];
+const WDAYS: [&str; 7] = ["Thu", "Fri", "Sat", "Sun", "Mon", "Tue", "Wed"]; // 1970-01-01 was a Thursday
+const WDAYS_LONG: [&str; 7] = ["Thursday", "Friday", "Saturday", "Sunday", "Monday", "Tuesday", "Wednesday"];
+
+fn days_from_civil(y: i64, m: i64, d: i64) -> i64 {
+    let y = if m <= 2 { y - 1 } else { y };
+    let era = if y >= 0 { y } else { y - 399 } / 400;
+    let yoe = y - era * 400;
+    let doy = (153 * (if m > 2 { m - 3 } else { m + 9 }) + 2) / 5 + d - 1;
+    let doe = yoe * 365 + yoe / 4 - yoe / 100 + doy;
+    era * 146_097 + doe - 719_468
+}
+
+fn civil_from_days(z: i64) -> (i64, i64, i64) {
+    let z = z + 719_468;
+    let era = if z >= 0 { z } else { z - 146_096 } / 146_097;
+    let doe = z - era * 146_097;
+    let yoe = (doe - doe / 1460 + doe / 36_524 - doe / 146_096) / 365;
+    let y = yoe + era * 400;
+    let doy = doe - (365 * yoe + yoe / 4 - yoe / 100);
+    let mp = (5 * doy + 2) / 153;
+    let d = doy - (153 * mp + 2) / 5 + 1;
+    let m = if mp < 10 { mp + 3 } else { mp - 9 };
+    (if m <= 2 { y + 1 } else { y }, m, d)
+}
+
+#[derive(Clone, Copy, Debug, PartialEq, Eq)]
+pub enum DateFmt {
+    Imf,
+    Rfc850,
+    Asctime,
+}
+
+/// Format `secs` (since the epoch, ≥ 0) as an HTTP-date.
+pub fn fmt_http_date(secs: i64, f: DateFmt) -> String {
+    let days = secs.div_euclid(86_400);
+    let rem = secs.rem_euclid(86_400);
+    let (y, m, d) = civil_from_days(days);
+    let (hh, mm, ss) = (rem / 3600, rem / 60 % 60, rem % 60);
+    let wd = days.rem_euclid(7) as usize;
+    let mon = MONTHS[(m - 1) as usize];
+    match f {
+        DateFmt::Imf => format!("{}, {:02} {} {:04} {:02}:{:02}:{:02} GMT", WDAYS[wd], d, mon, y, hh, mm, ss),
+        DateFmt::Rfc850 => format!("{}, {:02}-{}-{:02} {:02}:{:02}:{:02} GMT", WDAYS_LONG[wd], d, mon, y % 100, hh, mm, ss),
+        DateFmt::Asctime => format!("{} {} {:2} {:02}:{:02}:{:02} {:04}", WDAYS[wd], mon, d, hh, mm, ss, y),
+    }
+}
+
+fn two(s: &str) -> Option<i64> {
+    if s.len() == 2 && s.bytes().all(|b| b.is_ascii_digit()) {
+        s.parse().ok()
+    } else {
+        None
+    }
+}
+
+fn hms(s: &str) -> Option<(i64, i64, i64)> {
+    let mut it = s.split(':');
+    let (h, m, sec) = (two(it.next()?)?, two(it.next()?)?, two(it.next()?)?);
+    if it.next().is_some() || h > 23 || m > 59 || sec > 60 {
+        return None;
+    }
+    Some((h, m, sec))
+}
+
+fn month(s: &str) -> Option<i64> {
+    MONTHS.iter().position(|m| *m == s).map(|i| i as i64 + 1)
+}
+
+/// Parse an HTTP-date in any of the three formats of RFC 7231 §7.1.1.1 → seconds since the epoch.
+/// The reference year for two-digit years is taken as "now ≈ 2026" (generated dates stay within
+/// 1980‥2069 so the 50-year rule never matters).
+pub fn parse_http_date(v: &str) -> Option<i64> {
+    let v = v.trim();
+    let (y, m, d, t) = if let Some(rest) = v.strip_suffix(" GMT") {
+        let (wd, rest) = rest.split_once(", ")?;
+        if WDAYS.contains(&wd) {
+            // Sun, 06 Nov 1994 08:49:37
+            let p: Vec<&str> = rest.split(' ').collect();
+            if p.len() != 4 || p[2].len() != 4 {
+                return None;
+            }
+            (p[2].parse::<i64>().ok()?, month(p[1])?, two(p[0])?, hms(p[3])?)
+        } else if WDAYS_LONG.contains(&wd) {
+            // Sunday, 06-Nov-94 08:49:37
+            let (date, time) = rest.split_once(' ')?;
+            let p: Vec<&str> = date.split('-').collect();
+            if p.len() != 3 {
+                return None;
+            }
+            let yy = two(p[2])?;
+            let y = if yy < 70 { 2000 + yy } else { 1900 + yy };
+            (y, month(p[1])?, two(p[0])?, hms(time)?)
+        } else {
+            return None;
+        }
+    } else {
+        // Sun Nov  6 08:49:37 1994
+        let p: Vec<&str> = v.split(' ').filter(|s| !s.is_empty()).collect();
+        if p.len() != 5 || !WDAYS.contains(&p[0]) || p[4].len() != 4 {
+            return None;
+        }
+        (p[4].parse::<i64>().ok()?, month(p[1])?, p[2].parse::<i64>().ok()?, hms(p[3])?)
+    };
+    if !(1..=31).contains(&d) || !(1970..=9999).contains(&y) {
+        return None;
+    }
+    Some(days_from_civil(y, m, d) * 86_400 + t.0 * 3600 + t.1 * 60 + t.2)
+}
+
+/// Current validators of the selected representation.
+#[derive(Clone, Debug)]
+pub struct Validators {
+    pub etag: Option<ETag>,
+    /// Last-Modified in whole seconds since the epoch
+    pub last_modified: Option<i64>,
+}
+
+#[derive(Clone, Debug, Default)]
+pub struct CondHeaders {
+    pub if_match: Option<String>,
+    pub if_none_match: Option<String>,
+    pub if_unmodified_since: Option<String>,
+    pub if_modified_since: Option<String>,
+    pub if_range: Option<String>,
+}
+
+impl CondHeaders {
+    pub fn any(&self) -> bool {
+        self.if_match.is_some()
+            || self.if_none_match.is_some()
+            || self.if_unmodified_since.is_some()
+            || self.if_modified_since.is_some()
+            || self.if_range.is_some()
+    }
+}
+
+/// Outcome set of the precondition evaluation for a GET (RFC 7232 §6 order).
+#[derive(Clone, Debug, Default)]
+pub struct CondVerdict {
+    pub allow_412: bool,
+    pub allow_304: bool,
+    /// "proceed to step 5": the answer the request would get without If-Match / If-None-Match /
+    /// If-(Un)modified-Since
+    pub allow_normal: bool,
+    /// what a strict RFC 7232 §6 evaluation yields: "412" | "304" | "normal"
+    pub rfc: &'static str,
+    /// If-Range: Some(true) the validator matches (Range applies), Some(false) it does not (Range
+    /// MUST be ignored), None: no If-Range
+    pub if_range_matches: Option<bool>,
+    /// which tolerances widened the set
+    pub widened: Vec<&'static str>,
+}
+
+#[derive(Clone, Copy, PartialEq, Eq, Debug)]
+enum Step {
+    Absent,
+    True,
+    False,
+}
+
+fn rfc_eval(im: Step, ius: Step, inm: Step, ims: Step) -> &'static str {
+    // step 1/2
+    match im {
+        Step::False => return "412",
+        Step::True => {}
+        Step::Absent => {
+            if ius == Step::False {
+                return "412";
+            }
+        }
+    }
+    // step 3/4
+    match inm {
+        Step::False => return "304",
+        Step::True => {}
+        Step::Absent => {
+            if ims == Step::False {
+                return "304";
+            }
+        }
+    }
+    "normal"
+}
+
+pub fn eval_cond(h: &CondHeaders, v: &Validators) -> CondVerdict {
+    let mut out = CondVerdict::default();
+    // each header evaluates to a set of possible readings (garbage: unspecified ⇒ all readings)
+    let tag_step = |val: &Option<String>, weak_cmp: bool, true_when_match: bool| -> Vec<Step> {
+        match val {
+            None => vec![Step::Absent],
+            Some(s) => match parse_tag_list(s) {
+                TagList::Garbage => vec![Step::Absent, Step::True, Step::False],
+                TagList::Any => vec![if true_when_match { Step::True } else { Step::False }],
+                TagList::List(l) => {
+                    let m = match &v.etag {
+                        Some(cur) => l.iter().any(|e| if weak_cmp { e.weak_eq(cur) } else { e.strong_eq(cur) }),
+                        None => false,
+                    };
+                    vec![if m == true_when_match { Step::True } else { Step::False }]
+                }
+            },
+        }
+    };
+    let date_step = |val: &Option<String>, cond: &dyn Fn(i64, i64) -> bool| -> Vec<Step> {
+        match (val, v.last_modified) {
+            (None, _) => vec![Step::Absent],
+            (Some(_), None) => vec![Step::Absent], // no modification date: the header cannot apply
+            (Some(s), Some(lm)) => match parse_http_date(s) {
+                None => vec![Step::Absent], // invalid HTTP-date: MUST be ignored
+                Some(d) => vec![if cond(lm, d) { Step::True } else { Step::False }],
+            },
+        }
+    };
+    let im = tag_step(&h.if_match, false, true);
+    let inm = tag_step(&h.if_none_match, true, false);
+    let ius = date_step(&h.if_unmodified_since, &|lm, d| lm <= d);
+    let ims = date_step(&h.if_modified_since, &|lm, d| lm > d);
+    if im.len() > 1 || inm.len() > 1 {
+        out.widened.push("garbage-entity-tag-list");
+    }
+    let mut first = true;
+    for &a in &im {
+        for &b in &ius {
+            for &c in &inm {
+                for &d in &ims {
+                    let r = rfc_eval(a, b, c, d);
+                    if first {
+                        // the first reading of every header is the RFC's (garbage ⇒ "absent" first)
+                        out.rfc = r;
+                        first = false;
+                    }
+                    match r {
+                        "412" => out.allow_412 = true,
+                        "304" => out.allow_304 = true,
+                        _ => out.allow_normal = true,
+                    }
+                }
+            }
+        }
+    }
+    // Tolerated reading: If-Unmodified-Since evaluated although If-Match is present and true
+    // (RFC 7232 §3.4 says it MUST be ignored then; a 412 is still a truthful "precondition
+    // failed" and within the property's outcome set).
+    if im == vec![Step::True] && ius == vec![Step::False] && !out.allow_412 {
+        out.allow_412 = true;
+        out.widened.push("if-unmodified-since-evaluated-despite-if-match");
+    }
+    // If-Range (RFC 7233 §3.2): strong entity-tag comparison, or exact date match
+    out.if_range_matches = h.if_range.as_ref().map(|s| {
+        let s = s.trim();
+        if let Some(t) = ETag::parse(s) {
+            v.etag.as_ref().map(|cur| t.strong_eq(cur)).unwrap_or(false)
+        } else if let (Some(d), Some(lm)) = (parse_http_date(s), v.last_modified) {
+            d == lm
+        } else {
+            false
+        }
+    });
+    out
+}
+
+#[cfg(test)]
+mod tests {
+    use super::*;
+
+    #[test]
+    fn dates_roundtrip() {
+        for &s in &[0i64, 784_111_777, 1_700_000_000, 1_700_000_000 + 86_400 * 400, 4_102_444_800] {
+            for f in [DateFmt::Imf, DateFmt::Rfc850, DateFmt::Asctime] {
+                let t = fmt_http_date(s, f);
+                if f == DateFmt::Rfc850 && !(0..3_155_760_000).contains(&(s - 0)) {
+                    continue;
+                }
+                assert_eq!(parse_http_date(&t), Some(s), "{t}");
+            }
+        }
+        assert_eq!(fmt_http_date(784_111_777, DateFmt::Imf), "Sun, 06 Nov 1994 08:49:37 GMT");
+    }
+
+    #[test]
+    fn ranges() {
+        let v = eval_range(Some("bytes=0-499"), 10_000);
+        assert_eq!((v.kind.clone(), v.sat.clone()), (Kind::Sat, vec![(0, 499)]));
+        assert_eq!(eval_range(Some("bytes=-500"), 10_000).sat, vec![(9_500, 9_999)]);
+        assert_eq!(eval_range(Some("bytes=9500-"), 10_000).sat, vec![(9_500, 9_999)]);
+        assert_eq!(eval_range(Some("bytes=0-0,-1"), 10_000).sat, vec![(0, 0), (9_999, 9_999)]);
+        assert_eq!(eval_range(Some("bytes=-5"), 0).kind, Kind::EmptyRep);
+        assert_eq!(eval_range(Some("bytes=-0"), 10).kind, Kind::Unsat);
+        assert_eq!(eval_range(Some("bytes=10-"), 10).kind, Kind::Unsat);
+        assert_eq!(eval_range(Some("bytes=5-4"), 10).kind, Kind::Ignored(Ignored::LastBeforeFirst));
+        assert_eq!(eval_range(Some("bytes=0-99999999999999999999"), 10).sat, vec![(0, 9)]);
+    }
+}
